@@ -12,6 +12,8 @@ programs by canonical macro steps, `s` being the hand state it corresponds to.
   C06GC_terminates       every canonical run of the program has at most 9·N + 3·W + 7 protocol steps
   C06GC_final            when the main program returns, its result is the single-thread result `seqResult p`, every
                          worker closure and the hasher closure have returned, all handles were joined
+  C06GC_deadlock_free_src, C06GC_final_src   the same with `0 < p.W` discharged by `C06G_worker_count_pos` (p.W = the value of
+                         the generated `determine_worker_count`, any environment string, any configuration)
   C06GC_deterministic    fault-free run: the result is all N frames in order, the digest input is the concatenation of
                          the blocks, the final STREAMINFO updates were made
 -/
@@ -99,5 +101,23 @@ theorem C06GC_deterministic {p : Params} {fill : List Stmt} (hW : 0 < p.W) (hnf 
   obtain ⟨hdet, hhash⟩ := C05_deterministic p hW hnf hv hne s' (.step hr hs) hd
   obtain ⟨h1, h2, h3⟩ := hok _ hdet
   exact ⟨a, b, g', hm, by rw [hres, hdet], by rw [h1, hhash], h2, h3⟩
+
+/-- `C06GC_deadlock_free` with its hypothesis `0 < p.W` discharged for the current source: `p.W` is the value the generated
+`determine_worker_count` returns, for ANY value of the environment variable and any configuration. -/
+theorem C06GC_deadlock_free_src {p : Params} {fill : List Stmt} (hf : fill = fillInterleaved ∨ fill = fillLeBytes)
+    (ap : Nat) (hap : 1 ≤ ap) (envv : Option String) (config : FlacVerif.Gen.Encoder)
+    (hcfg : ∀ n, config.workers = some n → 0 < n) (hW : determineWorkerCount (some ap) envv config = some p.W)
+    (hne : p.NonemptyBlocks) {g : PState} {s : State} (h : PReach p fill g s) (hnf : s.main ≠ .done) :
+    ∃ tid a b e g', macroStep (env p fill) tid a b g = some (e, g') :=
+  C06GC_deadlock_free hf (C06G_worker_count_pos ap hap envv config hcfg p.W hW) hne h hnf
+
+/-- `C06GC_final` likewise: result = single-thread result, all closures returned, with the worker count of the source. -/
+theorem C06GC_final_src {p : Params} {fill : List Stmt} (ap : Nat) (hap : 1 ≤ ap) (envv : Option String)
+    (config : FlacVerif.Gen.Encoder) (hcfg : ∀ n, config.workers = some n → 0 < n)
+    (hW : determineWorkerCount (some ap) envv config = some p.W) {g g' : PState} {s s' : State} (h : PReach p fill g s)
+    (e : Ev) (he : e = .m_joined_hasher ∨ e = .m_joined_worker) (hs : Par.step p s e = some s') (hd : s'.main = .done) :
+    ∃ a b g', macroStep (env p fill) .main a b g = some (e, g') ∧ g'.main.cont = [] ∧
+      g'.main.result = some (seqResult p) ∧ (∀ t ∈ g'.workers, t.cont = []) ∧ g'.hasher.cont = [] :=
+  C06GC_final (g' := g') (C06G_worker_count_pos ap hap envv config hcfg p.W hW) h e he hs hd
 
 end FlacVerif.C06Gen
